@@ -996,14 +996,29 @@ func (e *Engine) fullDisk(t *core.Tape, st *core.Stats, ls *luaSide, dir string,
 	if err := syscall.Setrlimit(syscall.RLIMIT_FSIZE, &lim); err != nil {
 		return nil
 	}
-	vals, raised, v := run(fmt.Sprintf("F3:close()  -- the file may not grow beyond %d bytes: %d of the %d pending bytes fit", len(old)+room, room, len(pending)), "return enc(F3:close())")
+	// the disk is full either when close() flushes, or already at an explicit flush() that precedes the close
+	viaFlush := t.Choose(3) == 0
+	op := "close"
+	if viaFlush {
+		op = "flush"
+	}
+	vals, raised, v := run(fmt.Sprintf("F3:%s()  -- the file may not grow beyond %d bytes: %d of the %d pending bytes fit", op, len(old)+room, room, len(pending)), "return enc(F3:"+op+"())")
 	syscall.Setrlimit(syscall.RLIMIT_FSIZE, &lim0)
-	st.Fault("disk_full_at_close")
+	st.Fault("disk_full_at_" + op)
 	if v != nil {
 		return v
 	}
 	if !raised && !(len(vals) >= 1 && vals[0] == "N") {
-		return fail("lost-write-not-reported", "full-disk epilogue: close() reported success (%q) although only %d of the %d buffered bytes fit on the disk", vals, room, len(pending))
+		return fail("lost-write-not-reported", "full-disk epilogue: %s() reported success (%q) although only %d of the %d buffered bytes fit on the disk", op, vals, room, len(pending))
+	}
+	closeOK := false
+	if viaFlush {
+		// there is room again; the close that follows may fail (the buffered writer remembers its error) or write the rest
+		vals, raised, v := run("F3:close()  -- after the failed flush, with room on the disk again", "return enc(F3:close())")
+		if v != nil {
+			return v
+		}
+		closeOK = !raised && len(vals) >= 1 && vals[0] == "T"
 	}
 	for _, op := range []string{"F3:write('x')", "F3:read(1)", "F3:seek('set', 0)", "F3:flush()", "F3:lines()", "F3:close()", "F3:setvbuf('no')"} {
 		if _, raised, v := run(op+"  -- after the failed close", "return enc("+op+")"); v != nil {
@@ -1032,7 +1047,13 @@ func (e *Engine) fullDisk(t *core.Tape, st *core.Stats, ls *luaSide, dir string,
 		panic(err)
 	}
 	want := append(append([]byte(nil), old...), pending...)
-	if len(got) < len(old) || len(got) > len(old)+room || !bytes.Equal(got, want[:len(got)]) {
+	if closeOK {
+		if !bytes.Equal(got, want) {
+			return fail("lost-write-not-reported", "full-disk epilogue: the close() after the failed flush reported success, but the file holds %d bytes instead of the %d it held plus all %d that were pending", len(got), len(old), len(pending))
+		}
+		return nil
+	}
+	if len(got) < len(old) || len(got) > len(want) || !viaFlush && len(got) > len(old)+room || !bytes.Equal(got, want[:len(got)]) {
 		return fail("disk-mismatch", "full-disk epilogue: the file holds %d bytes; it must hold the %d it held plus a prefix (at most %d bytes) of what was pending", len(got), len(old), room)
 	}
 	return nil
